@@ -901,7 +901,7 @@ func conformLoaderSeam(c *Ctx, fs []gen.Feature) {
 			}
 			mem := runFlat(in, o, mcrt.Asc)
 			n++
-			if disk.Class() != mem.Res.Class() || string(disk.Out) != string(mem.Res.Out) {
+			if disk.Class() != mem.Res.Class() || (disk.OK() && string(disk.Out) != string(mem.Res.Out)) {
 				mism++
 				c.Notes = append(c.Notes, fmt.Sprintf("loader seam mismatch on %v %s: disk %s vs memory %s", in.Labels, o, disk.Class()+" "+disk.Err, mem.Res.Class()+" "+mem.Res.Err))
 			}
@@ -909,4 +909,39 @@ func conformLoaderSeam(c *Ctx, fs []gen.Feature) {
 	}
 	c.Count("loader_seam_conformance_runs", n)
 	c.Count("loader_seam_conformance_mismatches", mism)
+}
+
+// Show is a debugging aid: builds the bundle made of the given feature labels and prints, for every option
+// set of W, the outcome and the verdict of the property's oracles.
+func Show(prop string, labels []string) {
+	c := NewCtx(prop, "thorough", 0, 1, "")
+	singles, _ := flatCatalogues(c)
+	var idx []int
+	for _, l := range labels {
+		for i, f := range singles {
+			if f.Label == l {
+				idx = append(idx, i)
+			}
+		}
+	}
+	in, ok := buildFlatInput(singles, idx)
+	if !ok {
+		fmt.Println("cannot build", labels)
+		return
+	}
+	for f, d := range in.B.Files {
+		fmt.Println(f, d)
+	}
+	fp := flatProps[prop]
+	for _, o := range in.optionSets(fp.Filter) {
+		for _, pol := range []mcrt.Policy{mcrt.Asc, mcrt.Desc} {
+			r := runFlat(in, o, pol)
+			fmt.Printf("%s pol=%d: %s %s\n", o, pol, r.Res.Class(), r.Res.Err+r.Res.Panic)
+			for _, orc := range fp.Oracles {
+				if sig, what := orc(r); sig != "" {
+					fmt.Printf("   VIOLATION %s: %.300s\n   out: %s\n", sig, what, r.Res.Out)
+				}
+			}
+		}
+	}
 }
